@@ -118,6 +118,21 @@ class BV:
             r = r * self
         return r if mod is None else r % mod
 
+    def bit_length(self):
+        """int.bit_length of a non-negative proxy: binary search by path decisions"""
+        if self.is_const():
+            return abs(self.lo).bit_length()
+        if self.lo < 0 and self < 0:
+            raise Inconclusive("bit_length of a negative proxy")
+        lo, hi = 0, max(self.hi, 1).bit_length()
+        while lo < hi:
+            mid = (lo + hi) // 2
+            if self < (1 << mid):
+                hi = mid
+            else:
+                lo = mid + 1
+        return lo
+
     def __rpow__(self, base):
         # base ** proxy for a small exponent range: decided value by value
         if self.is_const():
